@@ -265,8 +265,10 @@ func findNextNodeAfterComment(file *ast.File, commentPos token.Pos) token.Pos {
 		return decl.End()
 	}
 
-	// Comment is inside this declaration - find the next node after comment
+	// Comment is inside this declaration - find the next node after comment;
+	// the scope extends to the end of that node
 	var nextPos = token.NoPos
+	var nextEnd = token.NoPos
 
 	ast.Inspect(decl, func(n ast.Node) bool {
 		if n == nil {
@@ -281,6 +283,7 @@ func findNextNodeAfterComment(file *ast.File, commentPos token.Pos) token.Pos {
 		// Found a node after comment
 		if nextPos == token.NoPos || n.Pos() < nextPos {
 			nextPos = n.Pos()
+			nextEnd = n.End()
 			// Stop searching once we found the first node
 			return false
 		}
@@ -288,5 +291,5 @@ func findNextNodeAfterComment(file *ast.File, commentPos token.Pos) token.Pos {
 		return true
 	})
 
-	return nextPos
+	return nextEnd
 }
